@@ -29,7 +29,7 @@ end Generic
 /-- the library functions over the reals; the partial ones fail exactly where Python raises. -/
 noncomputable def realFns : Fns ℝ where
   sq x := x ^ 2
-  root x := if 0 ≤ x then .ok (√x) else .error .typeError
+  hypot x y := √(x ^ 2 + y ^ 2)
   acos x := if -1 ≤ x ∧ x ≤ 1 then .ok (arccos x) else .error .valueError
   sin := Real.sin
   pi := π
@@ -62,8 +62,12 @@ theorem pyDiv_eq (a b : ℝ) (hb : b ≠ 0) : pyDiv a b = .ok (a / b) := by
 /-- the quotient handed to `acos`. -/
 noncomputable def q (r1 r2 d : ℝ) : ℝ := (r1 ^ 2 + d ^ 2 - r2 ^ 2) / (2 * r1 * d)
 
+/-- the factored numerator of the repaired code is the textbook one. -/
+theorem num_factored (a b e : ℝ) : (a - b) * (a + b) + e ^ 2 = a ^ 2 + e ^ 2 - b ^ 2 := by ring
+
 theorem quot_eq (r1 r2 d : ℝ) (h1 : 0 < r1) (hd : 0 < d) : quot realFns r1 r2 d = .ok (q r1 r2 d) := by
   unfold quot q; simp only [realFns, two_eq]
+  rw [num_factored]
   exact pyDiv_eq _ _ (by positivity)
 
 theorem q_le_one (r1 r2 d : ℝ) (h1 : 0 < r1) (h2 : 0 < r2) (hlo : |r1 - r2| < d) (hhi : d ≤ r1 + r2) :
@@ -107,6 +111,11 @@ theorem kite_eq (r1 r2 d : ℝ) (h1 : 0 < r1) (hd : 0 < d) :
   · field_simp
   · positivity
 
+
+/-- the hypothesis of `C17.total_structural` holds of the real library functions. -/
+theorem realFns_acos_total (x : ℝ) (h1 : (negOne : ℝ) ≤ x) (h2 : x ≤ (one : ℝ)) : ∃ v, realFns.acos x = .ok v := by
+  simp only [negOne_eq, one_eq] at h1 h2
+  exact ⟨arccos x, by simp [realFns, h1, h2]⟩
 
 theorem small_eq (r1 r2 : ℝ) : small realFns r1 r2 = π * (min r1 r2) ^ 2 := by
   unfold small; simp only [realFns, pyMin_eq']
